@@ -26,6 +26,15 @@ func c01Trans(c *Ctx, pre *Node, st Step, res *Result, post *State) ([]Violation
 		vs = append(vs, Violation{Oracle: oracle, Command: st.Cmd(), Tags: tags, Detail: fmt.Sprintf(f, args...) + outputTail(res)})
 	}
 	switch {
+	case st.Cmd() == "hash-object" && len(st.Args) > 2:
+		// several files in one invocation: one id per argument, each the id of that file
+		want := ""
+		for _, f := range st.Args[1:] {
+			want += BlobID(pa.W[f]) + "\n"
+		}
+		if res.Exit != 0 || res.Stdout != want {
+			bad("hash-object-prints-git-id", "hash-object %v printed %q (exit %d), expected %q", st.Args[1:], trunc(res.Stdout, 200), res.Exit, trunc(want, 200))
+		}
 	case st.Cmd() == "hash-object":
 		if res.Exit != 0 || res.Stdout != id+"\n" {
 			bad("hash-object-prints-git-id", "hash-object printed %q (exit %d), SHA-1('blob %d\\0'+bytes) is %s", trunc(res.Stdout, 60), res.Exit, len(data), id)
@@ -126,7 +135,7 @@ func checkC01(e *RunEnv) *CheckResult {
 			if strings.Contains(string(p), "\x00") {
 				t = append(t, "payload-has-nul")
 			}
-			steps := []Step{{Op: "write", Path: "f", Data: p}, Run("hash-object", "f").WithTags(t...), Run("add", "f").WithTags(t...), Run("cat-file", "-t", id).WithTags(t...), Run("cat-file", "-p", id).WithTags(t...)}
+			steps := []Step{{Op: "write", Path: "f", Data: p}, Write("g", "other file\n"), Run("hash-object", "f").WithTags(t...), Run("hash-object", "g", "f", "g", "f").WithTags(t...), Run("add", "f").WithTags(t...), Run("cat-file", "-t", id).WithTags(t...), Run("cat-file", "-p", id).WithTags(t...)}
 			cs = append(cs, Case{Base: base, BaseName: "S0", BaseSeed: seedS0(), Steps: steps})
 		}
 		cli = x.RunCases(cs)
